@@ -278,6 +278,25 @@ class Gen:
                     L.append(f"routelate {self.fresh('l')} {rn} {r.randint(0, 2)} {key}")
             if r.random() < self.p.get("routelate", 0.0):
                 L.append(f"routelate {self.fresh('l')} {rn} {r.randint(0, 2)} {r.randint(0, 2)}")
+            if r.random() < self.p.get("routehandler", 0.0):
+                # a route requested by the handler of some other stream: one that fires with the router's input, one that was
+                # deferred from it (built before the router: its handler runs in a later transaction), one of the routes
+                # merged with something else (the router is visited although its input is silent), or any stream at all
+                how = r.random()
+                cands = [x for x in self.streams if x not in self.dropped and not self.t(x)]
+                trig = r.choice(cands) if cands else s
+                pre = []
+                if how < 0.3:
+                    trig = self.fresh("s"); pre = [f"defer {trig} {s}"]; self.add_stream(trig, set()); self.ndefer += 1
+                elif how < 0.5 and cands:
+                    other = r.choice(cands); rt = self.fresh("s"); trig = self.fresh("s")
+                    L.append(f"route {rt} {rn} {r.randint(0, 2)}"); self.add_stream(rt, self.t(s))
+                    L.append(f"orelse {trig} {rt} {other}"); self.add_stream(trig, set())
+                if pre:
+                    # the deferring primitive has to exist before the router does: put it right before the `router` line
+                    i = max(j for j, l in enumerate(L) if l.startswith(f"router {rn} "))
+                    L[i:i] = pre
+                L.append(f"routehandler {self.fresh('l')} {trig} {rn} {r.randint(0, 2)}")
         elif kind in ("sloop", "cloop"):
             return self.gen_loop(kind)
         else:
